@@ -22,9 +22,9 @@ type Val struct {
 }
 
 type Call struct {
-	Callee  string `json:"callee"`
+	Callee  string   `json:"callee"`
 	Args    []string `json:"args"`
-	ArgVals []Val  `json:"argvals"`
+	ArgVals []Val    `json:"argvals"`
 }
 
 type Assign struct {
@@ -38,11 +38,15 @@ type Func struct {
 	Ints    []string `json:"ints"`
 	Calls   []Call   `json:"calls"`
 	Src     string   `json:"src"`
+	Defers  []string `json:"defers"`
+	Params  []string `json:"params"`
+	Stmts   []string `json:"stmts"`
 }
 
 type File struct {
-	Consts map[string]Val   `json:"consts"`
-	Funcs  map[string]*Func `json:"funcs"`
+	Consts  map[string]Val      `json:"consts"`
+	Funcs   map[string]*Func    `json:"funcs"`
+	Structs map[string][]string `json:"structs"`
 }
 
 var timeUnits = map[string]int64{
@@ -155,7 +159,31 @@ func main() {
 			continue
 		}
 		ev := &evaluator{consts: map[string]constant.Value{}}
-		file := &File{Consts: map[string]Val{}, Funcs: map[string]*Func{}}
+		file := &File{Consts: map[string]Val{}, Funcs: map[string]*Func{}, Structs: map[string][]string{}}
+		for _, d := range f.Decls {
+			gd, ok := d.(*ast.GenDecl)
+			if !ok || gd.Tok != token.TYPE {
+				continue
+			}
+			for _, sp := range gd.Specs {
+				ts := sp.(*ast.TypeSpec)
+				st, ok := ts.Type.(*ast.StructType)
+				if !ok {
+					continue
+				}
+				fields := []string{}
+				for _, fl := range st.Fields.List {
+					t := src(fset, fl.Type)
+					if len(fl.Names) == 0 {
+						fields = append(fields, t)
+					}
+					for _, nm := range fl.Names {
+						fields = append(fields, nm.Name+" "+t)
+					}
+				}
+				file.Structs[ts.Name.Name] = fields
+			}
+		}
 		for _, d := range f.Decls {
 			gd, ok := d.(*ast.GenDecl)
 			if !ok || (gd.Tok != token.CONST && gd.Tok != token.VAR) {
@@ -182,6 +210,21 @@ func main() {
 			}
 			fn := &Func{Strings: []string{}, Ints: []string{}, Calls: []Call{}, Assigns: []Assign{}}
 			fn.Src = src(fset, fd)
+			fn.Defers = []string{}
+			fn.Params = []string{}
+			for _, fl := range fd.Type.Params.List {
+				t := src(fset, fl.Type)
+				if len(fl.Names) == 0 {
+					fn.Params = append(fn.Params, t)
+				}
+				for _, nm := range fl.Names {
+					fn.Params = append(fn.Params, nm.Name+" "+t)
+				}
+			}
+			fn.Stmts = []string{}
+			for _, st := range fd.Body.List {
+				fn.Stmts = append(fn.Stmts, src(fset, st))
+			}
 			// function-local constants
 			local := &evaluator{consts: map[string]constant.Value{}}
 			for k, v := range ev.consts {
@@ -195,6 +238,8 @@ func main() {
 							fn.Assigns = append(fn.Assigns, Assign{src(fset, x.Lhs[i]), src(fset, x.Rhs[i])})
 						}
 					}
+				case *ast.DeferStmt:
+					fn.Defers = append(fn.Defers, src(fset, x.Call))
 				case *ast.IncDecStmt:
 					fn.Assigns = append(fn.Assigns, Assign{src(fset, x.X), x.Tok.String()})
 				case *ast.GenDecl:
